@@ -293,8 +293,9 @@ class C13(Check):
                  'real files; statement oracle + independent reference reader on the written bytes')
     level_text = ('every member of P1 (6x6 names x 10x10 numbers), P2 (7 formats x 45 boundary triples x velocities x '
                   '1..3 records), P3 (7 formats x velocities x 4 titles x 4 boxes x count mode), P4 (interaction product, '
-                  '3024 x record counts) and 299/300-record files is written by the real writer to a real file and read '
-                  'back; coverage of that finite product, not a proof over all reals / strings')
+                  '3024 x 1..3 records) and 299/300-record files is written by the real writer to a real file and read '
+                  'back, in both tiers; thorough adds the full 15^3 cube of the coordinate alphabet per format x velocities '
+                  'and the sizes 9, 10, 99, 100; coverage of that finite product, not a proof over all reals / strings')
     level_note = ('trusted: the reference reader mcx/ref/gro.py (written from the format definition), Python float/Decimal; '
                   'not covered: values outside the alphabets (coordinates: 15 boundary values per format; generic values '
                   'from a seeded table), non-ASCII titles, sizes other than 1..3, 299, 300')
